@@ -119,6 +119,12 @@ func (r *Reader) readRecord() (*record, error) {
 	// Read payload
 	data := make([]byte, length)
 	if _, err := io.ReadFull(r.reader, data); err != nil {
+		// ReadFull reports a plain EOF when no payload byte at all follows the
+		// header; a record that stops after its header is still a torn record,
+		// not a clean end of the log.
+		if err == io.EOF {
+			err = io.ErrUnexpectedEOF
+		}
 		return nil, err
 	}
 
